@@ -285,6 +285,8 @@ class Exits:
                 from . import facts as _facts
                 _facts.ABBR[dg] = _facts.leaves(desc)       # what the abbreviation stands for (nested abbreviations expanded)
                 _facts.ABBR_DEC[dg] = frozenset(_facts.decisions(desc))   # and the decisions made inside it
+                if _facts.ABBR_TEXT is not None:
+                    _facts.ABBR_TEXT[dg] = desc
             except Exception:
                 pass
             desc = desc[:80] + '…#' + dg
